@@ -133,6 +133,14 @@ pub fn prevents_complement_narrowing(binding_sets: &[BindingSet], program: &Prog
     })
 }
 
+/// Whether every variable the pattern binds is bound to the whole scrutinee (`=x`, `=('int)x`)
+/// rather than to a part of it (`=Cons[_, tail]`, `=(x)`).
+pub fn binds_whole_value(binding_sets: &[BindingSet]) -> bool {
+    binding_sets
+        .iter()
+        .all(|bs| bs.bindings.iter().all(|b| b.path.is_empty()))
+}
+
 /// Analyze pattern without generating code
 pub fn analyze_pattern(
     env: &mut super::typing::TypeEnv,
